@@ -910,6 +910,10 @@ func (client *client) subscribeHandler(sub *packets.Subscribe) *codes.Error {
 	}
 	for k, v := range sub.Topics {
 		sub := subReq.Subscriptions[v.Name].Sub
+		// SubscribeRequest.ID overrides the id of the subscriptions (no effect on v3 client).
+		if client.version == packets.Version5 && subReq.ID != subID {
+			sub.ID = subReq.ID
+		}
 		subErr := converError(subReq.Subscriptions[v.Name].Error)
 		var isShared bool
 		code := sub.QoS
